@@ -1195,3 +1195,14 @@ N('C16', 'sub-problems get a copy of the whole list', 'prover/simplex.py',
   "                s1.add_ineqs(ineq1, *node.simplex.original)", "                s1.add_ineqs(ineq1, *list(node.simplex.original))")
 N('C08', 'expected function type named before unification', 'syntax/infertype.py',
   "                    unify(funT, TFun(argT, resT))", "                    expected = TFun(argT, resT)\n                    unify(funT, expected)")
+
+# ------------------------------------------------------------------------------------------- rules of round 9
+B('C03', 'type instantiation applied to the result of the replacement', TERM,
+  "        t = self\n        if inst.tyinst:\n            t = self.subst_type(inst.tyinst)\n        return rec(t)", "        t = rec(self)\n        if inst.tyinst:\n            t = t.subst_type(inst.tyinst)\n        return t", 'C03.I11', '')
+N('C03', 'type instantiation of the pattern, then the replacement, result named', TERM,
+  "        t = self\n        if inst.tyinst:\n            t = self.subst_type(inst.tyinst)\n        return rec(t)", "        t = self\n        if inst.tyinst:\n            t = t.subst_type(inst.tyinst)\n        t = rec(t)\n        return t")
+B('C12', 'import order asked for before the theory\'s own entry is re-validated', 'logic/basic.py',
+  "    load_theory_cache(filename, username)\n    \n    cache = theory_cache[username][filename]\n\n    # Load imported theories\n    depend_list = get_import_order(cache['imports'], username)",
+  "    cache = theory_cache[username][filename]\n\n    # Load imported theories\n    depend_list = get_import_order(cache['imports'], username)\n    load_theory_cache(filename, username)", 'C12.L13', '')
+N('C12', 'load_theory uses the entry returned by load_theory_cache', 'logic/basic.py',
+  "    load_theory_cache(filename, username)\n    \n    cache = theory_cache[username][filename]\n", "    cache = load_theory_cache(filename, username)\n")
